@@ -6,6 +6,7 @@ package fixture
 
 import (
 	"bytes"
+	"encoding/asn1"
 	"errors"
 	"io"
 	"os"
@@ -156,4 +157,57 @@ func parseCert(b []byte) (*Certificate, error) {
 		return nil, errors.New("empty")
 	}
 	return &Certificate{Serial: int(b[0])}, nil
+}
+
+// STATELESS: a result that depends on an earlier call through a package-level table.
+var table []bool
+
+func keepsTable(n int) bool {
+	if len(table) <= n {
+		table = make([]bool, n+1)
+	}
+	table[n] = true
+	return table[0]
+}
+
+// ENC-LOOP: a loop over elements that stops encoding at the first empty one.
+func encodeSome(items []string) ([]byte, error) {
+	var out []byte
+	for _, it := range items {
+		if it == "" {
+			break
+		}
+		b, err := marshalItem(it)
+		if err != nil {
+			return nil, err
+		}
+		out = append(out, b...)
+	}
+	return out, nil
+}
+
+func marshalItem(s string) ([]byte, error) {
+	if len(s) > 100 {
+		return nil, errors.New("too long")
+	}
+	return []byte(s), nil
+}
+
+// ENC-GATE: one parameter decides whether another one is encoded.
+type gated struct {
+	Flag bool
+	N    int
+}
+
+func gatedField(flag bool, n int) gated {
+	g := gated{Flag: flag}
+	if flag {
+		g.N = n
+	}
+	return g
+}
+
+// DER-RAW: input bytes emitted verbatim.
+func rawFromInput(b []byte) asn1.RawValue {
+	return asn1.RawValue{FullBytes: b}
 }
